@@ -173,6 +173,69 @@ def tag_replaced_by_rename_only(chk, binp, tmpdir=None):
                       expected="rename-to only", observed=bad, finding_key="tag-not-atomic")
 
 
+def overlapping_writers(chk, binp):
+    """two writers of status.tag overlap (the deadline handler is held at the last status it collects while the remaining subsystems
+    report ready and the last of them publishes): a reader polling the file must never find one and the same file (inode) with two
+    different contents - a published file is replaced, never written to - and never a partial text"""
+    import threading
+    for before in ("", "rk", "l"):
+        stack = e2e.Stack(binp)
+        try:
+            tag = os.path.join(stack.sd, "keys", "status.tag")
+            seen = []          # (inode, content) in the order first observed
+            held = {}
+            stop = threading.Event()
+
+            def poll():
+                last = None
+                while not stop.is_set():
+                    try:
+                        f = open(tag, "rb")
+                        ino = os.fstat(f.fileno()).st_ino
+                        data = f.read()
+                        if ino in held:
+                            f.close()
+                        else:
+                            held[ino] = f          # kept open: the inode number cannot be given to a later file
+                        if (ino, data) != last:
+                            last = (ino, data)
+                            seen.append(last)
+                    except OSError:
+                        pass
+                    time.sleep(0.0005)
+            th = threading.Thread(target=poll, daemon=True)
+            th.start()
+            r = stack.ctl("prov overlap " + (before or "-"))
+            time.sleep(0.05)
+            stop.set()
+            th.join(2)
+            for f in held.values():
+                f.close()
+        finally:
+            stack.close()
+        by_ino = {}
+        for ino, data in seen:
+            by_ino.setdefault(ino, [])
+            if data not in by_ino[ino]:
+                by_ino[ino].append(data)
+        chk.case(nontrivial_key=("tag-overlap", before, r, len(seen)))
+        chk.count("tag_overlapping_writers")
+        if r == "overlapped" and len(seen) >= 2:
+            chk.count("tag_overlapping_writers_both_published")
+        d = {"schedule": "deadline handler (ready before: %r) held at its last status read; the other subsystems report ready and publish; "
+                         "then the deadline handler publishes" % before,
+             "observed_by_a_polling_reader": [[i, c[:60].decode("latin-1")] for i, c in seen][:8]}
+        if r not in ("overlapped", "sequential"):
+            chk.disagreement("status-tag", d, "the schedule to run", r)
+            continue
+        changed = {i: cs for i, cs in by_ino.items() if len(cs) > 1}
+        torn = [c for _i, c in seen if not tag_ok(c)]
+        if changed or torn:
+            chk.violation("status.tag was modified in place / removed instead of being replaced by one rename", d,
+                          expected="each published file keeps the content it was published with",
+                          observed="the same file (inode) read with different contents" if changed else "a partial text")
+
+
 def temp_file_write_fails(chk, binp):
     """the temp file of status.tag cannot be written (its name leads to a device that is full): the published file stays what it
     was - complete - and is not replaced by what little was written"""
@@ -437,6 +500,7 @@ def run(chk):
     # the same with the process's temp directory on another filesystem than its folders (the atomic replacement must not depend on
     # where the temp directory happens to be)
     temp_file_write_fails(chk, binp)
+    overlapping_writers(chk, binp)
     state_actor_gone(chk, binp)
     od = other_filesystem_dir()
     if od:
